@@ -3,10 +3,13 @@ C16 — only authentic, unmodified messages are delivered to p2p subscribers.
 
 Property theorems only (helpers: `Proofs/P2PSym.lean`).  Symbolic (Dolev–Yao) model
 `Model/P2PSym.lean`: frames and signatures are terms; the man in the middle is ANY
-sequence of frames each of which he can derive from what was sent without the session
-key and without a signing key (`Derivable`): verbatim copies in any order and number,
-byte strings that are not the output of Seal (altered, truncated, duplicated-and-altered,
-random injected frames), damage to the framing, and frames sealed under other keys.
+sequence of frames each of which he can derive from what was sent — in EITHER direction of
+the connection — without the session key and without a signing key (`Derivable`): verbatim
+copies of the remote endpoint's frames in any order and number, the receiver's OWN frames
+reflected back to it (both directions use the same key and nonce), byte strings that are not
+the output of Seal (altered, truncated, duplicated-and-altered, random injected frames),
+damage to the framing, and frames sealed under other keys (every other connection has its
+own key pair, `c16_code_shape`).
 Ideal AES-GCM (also under the fixed per-connection nonce the code uses) and BLS are
 assumptions, not theorems.
 -/
@@ -21,28 +24,37 @@ called with the BLS check under the handshake key and a failure drops the frame;
 again; a Package without Anything is an error, not a nil dereference. -/
 theorem c16_code_shape :
     Gen.decryptDropsOnOpenError = true ∧ Gen.decodeVerifiesFirst = true ∧
-    Gen.decodePipeVerifiesAgain = true ∧ Gen.decodeChecksAnything = true := by decide
+    Gen.decodePipeVerifiesAgain = true ∧ Gen.decodeChecksAnything = true ∧
+    Gen.signingKeyPerConnection = true := by decide
 
-/-- **1. delivered ⇒ sent, byte for byte.**  Whatever sequence `wire` the man in the middle puts on
-the connection, every message the receiver delivers is the delivery of a frame that the remote
-endpoint sent on this connection (same type, same value bytes, same sender, nonce and flag). -/
-theorem delivered_was_sent (c : Conn) (sent wire : List Frame)
-    (hmitm : ∀ f ∈ wire, Derivable c.k sent f) :
+/-- regenerated fact: `client.run` keeps `errc` drained (the repair of the stall after a second
+rejected frame); theorem 4 is stated for the code's own value of the switch -/
+theorem c16_errors_drained : Gen.runKeepsDrainingErrors = true := by decide
+
+/-- **1. delivered ⇒ sent BY THE REMOTE ENDPOINT, byte for byte.**  `sent` is what the remote endpoint
+sent on this connection, `own` what the receiver itself sent on it (packed with its own key, which
+differs from the remote one).  Whatever sequence `wire` the man in the middle puts on the connection —
+including the receiver's own frames bounced back — every message the receiver delivers is the
+delivery of a frame of `sent` (same type, same value bytes, same sender, nonce and flag). -/
+theorem delivered_was_sent (c : Conn) (hne : c.self ≠ c.pk) (sent own wire : List Frame)
+    (hown : OwnPacked c own) (hmitm : ∀ f ∈ wire, Derivable c.k sent own f) :
     ∀ d ∈ (recvAll c wire).out, ∃ f ∈ sent, recvFrame c f = .deliver d := by
   intro d hd
   rcases foldl_out c wire {} d hd with h | ⟨f, hf, hdel⟩
   · simp at h
   · by_cases hs : f ∈ sent
     · exact ⟨f, hs, hdel⟩
-    · exact absurd hdel (forged_not_delivered c sent f (hmitm f hf) hs d)
+    · exact absurd hdel (forged_not_delivered c hne sent own hown f (hmitm f hf) hs d)
 
 /-- … so when the remote endpoint is honest (it packed the messages `ms` with the key it presented in
-the handshake) every delivery IS one of those messages: same type and the very same bytes. -/
-theorem delivered_was_packed (c : Conn) (sender : Bytes) (ms : List (Msg × Nat × Bool)) (wire : List Frame)
-    (hmitm : ∀ f ∈ wire, Derivable c.k (ms.map fun m => pack c.pk c.k sender m.1 m.2.1 m.2.2) f) :
+the handshake) every delivery IS one of the messages the REMOTE endpoint packed — never one the
+receiver packed itself: same type and the very same bytes. -/
+theorem delivered_was_packed (c : Conn) (hne : c.self ≠ c.pk) (sender : Bytes)
+    (ms : List (Msg × Nat × Bool)) (own wire : List Frame) (hown : OwnPacked c own)
+    (hmitm : ∀ f ∈ wire, Derivable c.k (ms.map fun m => pack c.pk c.k sender m.1 m.2.1 m.2.2) own f) :
     ∀ d ∈ (recvAll c wire).out, ∃ m ∈ ms, d = delivered sender m.1 m.2.1 m.2.2 := by
   intro d hd
-  obtain ⟨f, hf, hdel⟩ := delivered_was_sent c _ wire hmitm d hd
+  obtain ⟨f, hf, hdel⟩ := delivered_was_sent c hne _ own wire hown hmitm d hd
   obtain ⟨m, hm, rfl⟩ := List.mem_map.mp hf
   refine ⟨m, hm, ?_⟩
   rw [recvFrame_deliver] at hdel
@@ -53,23 +65,44 @@ theorem delivered_was_packed (c : Conn) (sender : Bytes) (ms : List (Msg × Nat 
   subst ha
   rfl
 
+/-- **1b. reflection**: a frame the receiver sent itself, bounced back by the man in the middle, opens
+under the session key (both directions share key and nonce) and is rejected ONLY by the signature
+check: it carries the receiver's own signature and is verified under the remote handshake key. -/
+theorem reflected_not_delivered (c : Conn) (hne : c.self ≠ c.pk) (sender : Bytes) (m : Msg)
+    (nonce : Nat) (reply : Bool) :
+    recvFrame c (pack c.self c.k sender m nonce reply) = .err .sig :=
+  recvFrame_reflected c hne sender m nonce reply
+
+/-- … and that check is what does it: the same frame WOULD be delivered by a receiver that verified
+under its own key (the signature check is load-bearing for theorem 1) -/
+theorem reflection_needs_the_remote_key (c : Conn) (sender : Bytes) (m : Msg) (nonce : Nat)
+    (hk : c.known m.typ = true) :
+    recvFrame { c with pk := c.self } (pack c.self c.k sender m nonce false) =
+      .deliver (delivered sender m nonce false) :=
+  recvFrame_pack { c with pk := c.self } sender m nonce false hk
+
 /-- **2a. tampered frames are errors, not deliveries**: a byte string that is not a Seal output under
 the session key (flipped, truncated, duplicated-and-altered, injected), a frame sealed under any
-other key, damaged framing — each is an `err` outcome: no delivery, no panic. -/
-theorem tampered_not_delivered (c : Conn) (sent : List Frame) (f : Frame)
-    (hd : Derivable c.k sent f) (hnew : f ∉ sent) : ∃ e, recvFrame c f = .err e := by
+other key, damaged framing, a reflected frame — each is an `err` outcome: no delivery, no panic. -/
+theorem tampered_not_delivered (c : Conn) (hne : c.self ≠ c.pk) (sent own : List Frame)
+    (hown : OwnPacked c own) (f : Frame)
+    (hd : Derivable c.k sent own f) (hnew : f ∉ sent) : ∃ e, recvFrame c f = .err e := by
   cases hd with
   | copy hm => exact absurd hm hnew
+  | reflect hm =>
+    obtain ⟨sender, m, nonce, reply, rfl⟩ := hown f hm
+    exact ⟨.sig, recvFrame_reflected c hne sender m nonce reply⟩
   | raw n => exact ⟨.openFail, rfl⟩
   | broken => exact ⟨.framing, rfl⟩
   | otherKey hk => exact ⟨.openFail, by simp [recvFrame, hk]⟩
 
 /-- … and it leaves the list of delivered messages exactly as it was -/
-theorem tampered_changes_nothing_delivered (c : Conn) (sent : List Frame) (f : Frame) (st : RState)
-    (hd : Derivable c.k sent f) (hnew : f ∉ sent) : (rstep c st f).out = st.out := by
+theorem tampered_changes_nothing_delivered (c : Conn) (hne : c.self ≠ c.pk) (sent own : List Frame)
+    (hown : OwnPacked c own) (f : Frame) (st : RState)
+    (hd : Derivable c.k sent own f) (hnew : f ∉ sent) : (rstep c st f).out = st.out := by
   rcases rstep_out c st f with h | ⟨d, hdel, _⟩
   · exact h
-  · exact absurd hdel (forged_not_delivered c sent f hd hnew d)
+  · exact absurd hdel (forged_not_delivered c hne sent own hown f hd hnew d)
 
 /-- **2b. a well-encrypted package whose payload signature does not verify under the key presented in
 the handshake is not delivered** (wrong key, signature over other bytes, empty or junk signature —
@@ -142,6 +175,70 @@ theorem honest_once (c : Conn) (sender : Bytes) (ms : List (Msg × Nat × Bool))
   simp only [List.nil_append, toSubscriber, List.filter_map]
   congr 1
 
+/-- **4. junk does not cost honest frames their delivery.**  With `errc` drained (the code's own value,
+`c16_errors_drained`) and as long as the man in the middle does not damage the framing itself, he may
+interleave the remote endpoint's frames with any number of injected, altered, duplicated, reflected
+or foreign-key frames: the connection never stalls and the delivered list is exactly the deliveries
+of the remote endpoint's frames that are on the wire, in wire order — every honest frame he lets
+through is delivered. -/
+theorem junk_does_not_block_honest (c : Conn) (hdr : c.drains = Gen.runKeepsDrainingErrors)
+    (hca : c.checkAny = Gen.decodeChecksAnything) (hne : c.self ≠ c.pk) (sent own wire : List Frame)
+    (hown : OwnPacked c own) (hmitm : ∀ f ∈ wire, Derivable c.k sent own f)
+    (hnb : Frame.broken ∉ wire) :
+    (recvAll c wire).stalled = false ∧
+    (recvAll c wire).out = (wire.filter (· ∈ sent)).filterMap (fun f =>
+      match recvFrame c f with
+      | .deliver d => some d
+      | _ => none) := by
+  have hd : c.drains = true := by rw [hdr]; decide
+  have hnf : ∀ f ∈ wire, recvFrame c f ≠ .err .framing ∧ ∀ s, recvFrame c f ≠ .panic s := by
+    intro f hf
+    refine ⟨?_, fun s => recv_never_panics c hca f s⟩
+    intro h
+    cases f with
+    | broken => exact hnb hf
+    | raw n => simp [recvFrame] at h
+    | sealed k' pt =>
+      unfold recvFrame at h
+      by_cases hk : k' = c.k
+      · subst hk
+        simp only [ne_eq, not_true_eq_false, if_false] at h
+        cases pt with
+        | empty => simp at h
+        | junk n => simp at h
+        | pkg p =>
+          simp only at h
+          cases ha : p.any with
+          | none => rw [ha] at h; simp only at h; split at h <;> simp at h
+          | some a => rw [ha] at h; simp only at h; split at h <;> (try split at h) <;> (try split at h) <;> simp at h
+      · simp [hk] at h
+  -- frames not in `sent` contribute nothing
+  have key : ∀ (w : List Frame), (∀ f ∈ w, Derivable c.k sent own f) →
+      w.filterMap (fun f => match recvFrame c f with | .deliver d => some d | _ => none) =
+      (w.filter (· ∈ sent)).filterMap (fun f => match recvFrame c f with | .deliver d => some d | _ => none) := by
+    intro w
+    induction w with
+    | nil => intro _; rfl
+    | cons f fs ih =>
+      intro hm
+      have ih' := ih (fun g hg => hm g (by simp [hg]))
+      by_cases hs : f ∈ sent
+      · simp only [List.filterMap_cons, List.filter_cons, hs, decide_true, if_true]
+        cases recvFrame c f <;> simp [ih']
+      · have hno := forged_not_delivered c hne sent own hown f (hm f (by simp)) hs
+        simp only [List.filterMap_cons, List.filter_cons, hs, decide_false]
+        cases hr : recvFrame c f with
+        | deliver d => exact absurd hr (hno d)
+        | skip => simpa using ih'
+        | err e => simpa using ih'
+        | panic s => simpa using ih'
+  obtain ⟨h1, _, h3⟩ := recvAll_no_stall c hd wire {} rfl rfl hnf
+  refine ⟨h1, ?_⟩
+  unfold recvAll
+  rw [h3]
+  simp only [List.nil_append]
+  exact key wire hmitm
+
 /-- observation, not a violation of the property as stated (its catalogue has no verbatim replay):
 the GCM nonce is fixed per connection and nothing in a package is fresh, so a frame replayed
 verbatim is delivered again — and by theorem 1 it is still a message the remote endpoint sent. -/
@@ -159,15 +256,26 @@ def m2 : Msg := ⟨2, [9]⟩
 
 example : (recvAll demoConn [pack 7 1 [65] m0 0 false, .raw 5, pack 7 1 [65] m2 1 false]).out =
     [delivered [65] m0 0 false, delivered [65] m2 1 false] := by decide
-example : Derivable 1 [pack 7 1 [65] m0 0 false] (.raw 5) ∧ (.raw 5 : Frame) ∉ [pack 7 1 [65] m0 0 false] :=
+example : Derivable 1 [pack 7 1 [65] m0 0 false] [] (.raw 5) ∧ (.raw 5 : Frame) ∉ [pack 7 1 [65] m0 0 false] :=
   ⟨.raw 5, by decide⟩
+example : demoConn.self ≠ demoConn.pk ∧ OwnPacked demoConn [pack 8 1 [66] m2 4 false] :=
+  ⟨by decide, fun f hf => ⟨[66], m2, 4, false, by
+    have : f = pack 8 1 [66] m2 4 false := by simpa using hf
+    rw [this]; rfl⟩⟩
+example : recvFrame demoConn (pack 8 1 [66] m2 4 false) = .err .sig := by decide
+example : (recvAll demoConn [.raw 1, .raw 2, pack 8 1 [66] m2 4 false, pack 7 1 [] m0 0 false]).out =
+    [delivered [] m0 0 false] := by decide
 example : recvFrame demoConn (.sealed 1 (.pkg { any := some ⟨0, [1], true⟩, sig := .good 8 [1] })) = .err .sig := by
   decide
 example : recvFrame demoConn (.sealed 1 (.pkg { any := none, sig := .bad 0 })) = .err .noAny := by decide
 example : recvFrame (theConn false) (.sealed 1 (.pkg { any := none, sig := .bad 0 })) =
     .panic "decodeBytes: pa.GetAnything().Value" := by decide
-example : (recvAll demoConn [.raw 1, pack 7 1 [] m0 0 false, .raw 2, pack 7 1 [] m2 1 false]).out =
+/-- the defect that was there: with `errc` not drained two rejected frames stalled the connection -/
+example : (recvAll (theConn true false) [.raw 1, pack 7 1 [] m0 0 false, .raw 2, pack 7 1 [] m2 1 false]).out =
     [delivered [] m0 0 false] ∧
-    (recvAll demoConn [.raw 1, pack 7 1 [] m0 0 false, .raw 2, pack 7 1 [] m2 1 false]).stalled = true := by decide
+    (recvAll (theConn true false) [.raw 1, pack 7 1 [] m0 0 false, .raw 2, pack 7 1 [] m2 1 false]).stalled = true := by
+  decide
+example : (recvAll demoConn [.raw 1, pack 7 1 [] m0 0 false, .raw 2, pack 7 1 [] m2 1 false]).out =
+    [delivered [] m0 0 false, delivered [] m2 1 false] := by decide
 
 end Dos.Props.C16
